@@ -39,6 +39,8 @@ FIXES = [
   "(also C09) the resource-class-removed / unexpected-key tasks treated every error (here: an I/O error at the parent; for a remote parent: any transport failure) as 'already revoked' and gave up, so the parent kept publishing the certificate of a key its child had dropped"),
  ("apply the maximum number of RRDP deltas also when the minimum rules kept more", "C11", "delta_count_exceeds_max",
   "RrdpServer::find_deltas_truncate_age compared `keep == max_nr - 1`; once the minimum rules had kept that many deltas or more, the number of deltas was no longer bounded by rrdp_delta_files_max_nr (6 deltas with max_nr = 1)"),
+ ("do not finish a child's running parent synchronisation from another thread", "C18", "daemon_exit",
+  "a parent-side child update (API thread) ran the post-save listener with schedule_and_finish_existing for the child's SyncParent task while the scheduler thread was executing exactly that task; the scheduler could then not finish/reschedule it ('failed to move running/... to pending/...') and called process::exit"),
 ]
 
 log = subprocess.run(["git", "-C", "/repo", "log", "--format=%h %s", "--grep=^fix:"],
